@@ -375,7 +375,8 @@ def run_world(plan, keep_log=False):
                         continue
                     if m.get('half_close'):
                         c.close_write()
-                    raw, how = c.recv_all(m.get('read_timeout'))
+                    raw, how = c.recv_all(m.get('read_timeout'),
+                                          eager=spec.get('eager', False))
                 except ConnectionResetError:
                     if c.accepted and c.server_closed:
                         # the server answered and closed before the sender
